@@ -109,7 +109,9 @@ CHECKS["C12"] = (
     "and then rows are concatenated; any sequence of compatible appends yields the concatenation in order; a refused write leaves the store "
     "unchanged; slice reads return exactly rows lo+k*step<hi, index reads one row per index in the given order with repeats. "
     "tools/py2v_readbatch.py regenerates Gen/ReadBatchGen.v from utils.read_batch / read_batch_slice / read_batch_idx / read_random_batch "
-    "(accepted only in the pinned statement forms) and Props/C12g.v proves the generated column-by-column readers return exactly the rows of the model. Each run Coq "
+    "(accepted only in the pinned statement forms) and Props/C12g.v proves the generated column-by-column readers return exactly the rows of the model. "
+    "tools/py2v_write.py regenerates the control flow of the vendored HDF5 writer write_table_hdf5 (file level, group level, dataset creation / extension over the table dataset and its serialized-header dataset) and Props/C12w.v proves it REFINES the table-level write for every flag combination on every well-formed file -- "
+    "and that the code before the repair of D14 did not. Each run Coq "
     "replays random op sequences executed on real HDF5/FITS files (run_ops).",
     "Trusted: Coq kernel + vm_compute; HDF5/FITS byte encodings, YAML header, astropy unit factors and Time serialisation (store modelled at "
     "table level); the random-subset read is checked through the recorded choice() (numpy's choice without replacement trusted).",
